@@ -1,5 +1,7 @@
 mod c02;
 mod c04;
+mod c14;
+mod c16;
 mod corescn;
 mod model;
 mod ops;
@@ -102,6 +104,38 @@ fn main() {
             "every history over the listed request alphabet (mutators + ls subscriptions at every position) up to the completed depth, de-duplicated by a complete state snapshot; distinct_nontrivial counts distinct (request kind, answer class) pairs observed",
         ),
         "C04" => c04::run(&tier),
+        "C14" => c14::run(&tier),
+        "C16" => run_scenarios(
+            "C16",
+            &tier,
+            "model_checking",
+            vec![
+                (
+                    "aggregator".into(),
+                    Box::new(c16::agg_scenario()),
+                    Tiered { quick: lim(6, 4, false, 45), thorough: lim(8, 6, false, 600) },
+                    "tree",
+                ),
+                (
+                    "session-snapshot".into(),
+                    Box::new(c16::session_scenario(false)),
+                    Tiered { quick: lim(4, 3, false, 30), thorough: lim(6, 4, false, 300) },
+                    "tree",
+                ),
+                (
+                    "session-live-only".into(),
+                    Box::new(c16::session_scenario(true)),
+                    Tiered { quick: lim(3, 3, false, 30), thorough: lim(5, 4, false, 300) },
+                    "tree",
+                ),
+            ],
+            &[
+                "paused tokio clock: time moves only by the explorer's advance steps (in 10 ms increments, so delays are observed with 10 ms resolution); after every step the harness yields so that exactly one stimulus is outstanding - a both-ready select! of the real loop is equivalent to one of the two sequential orders, and both are explored as different step sequences",
+                "the client connection can always take messages (channel capacity 1000)",
+                "interval 100 ms; events carry unique values so that losses, duplicates and reorderings are attributable",
+            ],
+            "all sequences of {set a, set b, delete a, delete b, advance I/2, advance I} handed to the real PStateAggregator (followed by a final advance of 2I), and all sequences of writes/deletes/advances on a live session with an aggregated and a plain psubscribe on the same pattern; distinct_nontrivial counts distinct (scenario, number of batches/events) classes",
+        ),
         "C09" => persist::run_c09(&tier),
         "C10" => persist::run_c10(&tier),
         "C13" => run_scenarios(
